@@ -187,6 +187,8 @@ def rules_tokenizer(src, rep, fold, prefix, counts):
         ("8-bit CSI", "q\x9b5Ax", ("q", "\x9b5A", "A", [5], "x")),
         ("parameter list with a trailing separator stays a string", ESC + "[1;m", ("", ESC + "[1;m", "m", "1;", "")),
         ("truncated CSI is a two-byte sequence", "x" + ESC + "[", ("x", ESC + "[", "[", None, "")),
+        ("three parameters", ESC + "[38;5;196mX", ("", ESC + "[38;5;196m", "m", [38, 5, 196], "X")),
+        ("non-ASCII decimal digits are digits for the pattern and for int()", ESC + "[\u0663mX", ("", ESC + "[\u0663m", "m", [3], "X")),
         ("carriage return and form feed are ordinary text", "a\rb\x0c" + ESC + "[4mc", ("a\rb\x0c", ESC + "[4m", "m", [4], "c")),
     ]
     for label, text, want in probes:
